@@ -278,6 +278,249 @@ def r06_5(ctx):
                               f"guards {[('' if p else 'not ') + src(t) for t, p in atoms]}", fi, n.ast)
 
 
+def _p_norm_reader(sp, e, vec, ordn, V, P):
+    """2-entry symbolic reading of an aggregate of the vector `vec` of partial norms"""
+    def is_vec(v):
+        return isinstance(v, tuple)
+
+    def ev(x):
+        if isinstance(x, ast.Constant) and isinstance(x.value, (int, float)) and not isinstance(x.value, bool):
+            return sp.nsimplify(x.value)
+        if isinstance(x, ast.Name):
+            if x.id == vec:
+                return V
+            if x.id == ordn:
+                return P
+            raise ValueError(x.id)
+        if isinstance(x, ast.UnaryOp) and isinstance(x.op, ast.USub):
+            v = ev(x.operand)
+            return tuple(-a for a in v) if is_vec(v) else -v
+        if isinstance(x, ast.BinOp) and type(x.op) in (ast.Add, ast.Sub, ast.Mult, ast.Div, ast.Pow):
+            a, b = ev(x.left), ev(x.right)
+            f = {ast.Add: lambda u, w: u + w, ast.Sub: lambda u, w: u - w, ast.Mult: lambda u, w: u * w,
+                 ast.Div: lambda u, w: u / w, ast.Pow: lambda u, w: u ** w}[type(x.op)]
+            if is_vec(a) and is_vec(b):
+                return tuple(f(u, w) for u, w in zip(a, b))
+            if is_vec(a):
+                return tuple(f(u, b) for u in a)
+            if is_vec(b):
+                return tuple(f(a, w) for w in b)
+            return f(a, b)
+        if isinstance(x, ast.Call):
+            nm = call_name(x)
+            t = src(x.func)
+            kws = {k.arg: k.value for k in x.keywords}
+            if isinstance(x.func, ast.Attribute) and nm == "sum" and not x.args and not kws and t not in ("np.sum", "numpy.sum"):
+                v = ev(x.func.value)
+                if is_vec(v):
+                    return sum(v)
+            if t in ("np.sum", "numpy.sum", "sum") and len(x.args) == 1 and not kws:
+                v = ev(x.args[0])
+                if is_vec(v):
+                    return sum(v)
+            if t in ("np.abs", "numpy.abs", "abs", "np.sqrt", "numpy.sqrt") and len(x.args) == 1:
+                v = ev(x.args[0])
+                fn = sp.sqrt if t.endswith("sqrt") else sp.Abs
+                return tuple(fn(a) for a in v) if is_vec(v) else fn(v)
+            if t in ("np.linalg.norm", "numpy.linalg.norm") and x.args:
+                v = ev(x.args[0])
+                o = x.args[1] if len(x.args) > 1 else kws.get("ord")
+                if is_vec(v) and set(kws) <= {"ord"}:
+                    q = sp.Integer(2) if o is None else ev(o)
+                    if not is_vec(q):
+                        return sum(sp.Abs(a) ** q for a in v) ** (1 / q)
+        raise ValueError(src(x)[:60])
+    return ev(e)
+
+
+def r06_6(ctx):
+    """the order of the norm reaches the array computation on every layer; the multi-field norm is the p-norm of the partial p-norms"""
+    from .c03 import _load_sympy
+    from ..terms import inline_at
+    m = ctx.model
+    F, MF, A = m.cls(FLD, "Field"), m.cls(MFLD, "MultiField"), m.cls(ANY, "AnyArray")
+    ctx.rule("R06.6", "norm(ord): Field.norm hands `ord` to AnyArray.norm, which hands it to numpy.linalg.norm of the flattened "
+                      "array; MultiField.norm takes the per-entry norms with the same `ord` and combines them as "
+                      "(sum_k n_k**ord)**(1/ord) (maximum for ord == inf) - read on a two-entry symbolic vector, sympy as term normaliser", floor=4)
+
+    def passes_ord(fi, recv_pred, what):
+        ordn = fi.params()[1] if len(fi.params()) > 1 else None
+        calls = [c for c in walk_no_nested(fi.node) if isinstance(c, ast.Call) and call_name(c) == "norm" and recv_pred(c)]
+        key = f"{fi.key}::{what}"
+        if ordn is None or len(calls) != 1:
+            ctx.und("R06.6", key, f"{len(calls)} delegating norm calls", fi)
+            return
+        c = calls[0]
+        kws = {k.arg: src(k.value) for k in c.keywords}
+        given = kws.get("ord") or (src(c.args[-1]) if len(c.args) >= (2 if src(c.func).endswith("linalg.norm") else 1) else None)
+        ctx.check("R06.6", key, given == ordn, f"`{src(c)}` does not receive `{ordn}`: every order is computed as the default one", fi, c)
+    fn, an, mn = F.methods.get("norm"), A.methods.get("norm"), MF.methods.get("norm")
+    if fn is None or an is None or mn is None:
+        ctx.error("R06.6: a norm method is missing")
+        return
+    for fi in (fn, an, mn):
+        ctx.saw_func(fi)
+    passes_ord(fn, lambda c: src(c.func) == "self._val.norm", "self._val.norm(ord)")
+    passes_ord(an, lambda c: src(c.func) in ("np.linalg.norm", "numpy.linalg.norm"), "np.linalg.norm(flat, ord)")
+    # MultiField.norm
+    ordn = mn.params()[1]
+    cfg = cfg_of(mn)
+    rd = cfg.reaching_defs(mn.params())
+    per = [c for c in walk_no_nested(mn.node) if isinstance(c, ast.Call) and call_name(c) == "norm" and isinstance(c.func, ast.Attribute)
+           and not src(c.func).endswith("linalg.norm")]
+    key = f"{mn.key}::per-entry norms use the same ord"
+    if len(per) != 1:
+        ctx.und("R06.6", key, f"{len(per)} per-entry norm calls", mn)
+    else:
+        a = [src(x) for x in per[0].args] + [src(k.value) for k in per[0].keywords if k.arg == "ord"]
+        ctx.check("R06.6", key, a == [ordn], f"`{src(per[0])}`", mn, per[0])
+    # the vector of partial norms
+    vec = None
+    for st in mn.node.body:
+        if isinstance(st, ast.Assign) and len(st.targets) == 1 and isinstance(st.targets[0], ast.Name) and per and \
+                any(x is per[0] for x in ast.walk(st.value)):
+            vec = st.targets[0].id
+    sp = _load_sympy()
+    rets = [n for n in cfg.nodes if n.kind == "stmt" and isinstance(n.ast, ast.Return)]
+    if vec is None or sp is None or not rets:
+        ctx.und("R06.6", f"{mn.key}::aggregate", "vector of partial norms / sympy / returns not found", mn)
+        return
+    V = tuple(sp.Symbol(f"n{i}", positive=True) for i in (1, 2))
+    P = sp.Symbol("p", positive=True)
+    want = sum(a ** P for a in V) ** (1 / P)
+    for n in rets:
+        atoms = known_atoms(cfg, n.id)
+        inf_branch = [pol for t, pol in atoms if ordn in src(t) and "inf" in src(t)]
+        e = inline_at(cfg, rd, n.id, n.ast.value, depth=4, stop=(vec, ordn))
+        if inf_branch and inf_branch[0]:
+            key = f"{mn.key}::ord == inf -> maximum of the partial norms"
+            ok = src(e) in (f"{vec}.max()", f"np.max({vec})", f"max({vec})", f"np.amax({vec})")
+            ctx.check("R06.6", key, True if ok else None, src(e), mn, n.ast)
+            continue
+        key = f"{mn.key}::finite ord -> (sum_k n_k**ord)**(1/ord)"
+        try:
+            got = _p_norm_reader(sp, e, vec, ordn, V, P)
+        except ValueError as exc:
+            ctx.und("R06.6", key, f"aggregate not understood: {exc}", mn, n.ast)
+            continue
+        if isinstance(got, tuple):
+            ctx.und("R06.6", key, "aggregate is still a vector", mn, n.ast)
+            continue
+        pts = [{V[0]: sp.Rational(2, 3), V[1]: sp.Rational(5, 7), P: q} for q in (1, 2, 3, sp.Rational(5, 2))]
+        zero = sp.simplify(got - want) == 0 or all(sp.simplify(got.subs(pt) - want.subs(pt)) == 0 for pt in pts)
+        ctx.check("R06.6", key, bool(zero), f"`{src(n.ast.value)}` reads as {got}, expected {want}", mn, n.ast)
+
+
+def r06_7(ctx):
+    """every result of the contraction helper is the reduction applied to the array"""
+    from ..terms import inline_at
+    m = ctx.model
+    F = m.cls(FLD, "Field")
+    fi = F.methods.get("_contraction_helper")
+    ctx.rule("R06.7", "Field._contraction_helper(op, spaces): every returned field is built from getattr(self._val, op)(...) - no "
+                      "path returns without applying the reduction (var/std/any/all over an empty subset are not the identity) - "
+                      "and the partial branch reduces over axes taken from self._domain.axes[...] of the requested spaces", floor=3)
+    if fi is None:
+        ctx.error("R06.7: Field._contraction_helper missing")
+        return
+    ctx.saw_func(fi)
+    opn = fi.params()[1]
+    cfg = cfg_of(fi)
+    rd = cfg.reaching_defs(fi.params())
+
+    def red_calls(e):
+        return [c for c in ast.walk(e) if isinstance(c, ast.Call) and isinstance(c.func, ast.Call) and call_name(c.func) == "getattr"
+                and [src(a) for a in c.func.args] == ["self._val", opn]]
+    n_part = 0
+    for n in cfg.nodes:
+        if n.kind != "stmt" or not isinstance(n.ast, ast.Return):
+            continue
+        e = inline_at(cfg, rd, n.id, n.ast.value, depth=8) if n.ast.value is not None else None
+        rc = red_calls(e) if e is not None else []
+        key = f"{fi.key}::{short(n.ast)} applies the reduction"
+        ctx.check("R06.7", key, len(rc) >= 1, f"`{short(n.ast)}` (= {src(e)[:80] if e is not None else None}) does not contain getattr(self._val, {opn})(...)", fi, n.ast)
+        for c in rc:
+            kw = {k.arg: k.value for k in c.keywords}
+            if "axis" in kw or c.args:
+                n_part += 1
+    # the axis argument of the partial reduction
+    for n in cfg.nodes:
+        if n.kind != "stmt":
+            continue
+        for c in red_calls(n.ast) if isinstance(n.ast, ast.AST) else []:
+            kw = {k.arg: k.value for k in c.keywords}
+            ax = kw.get("axis") or (c.args[0] if c.args else None)
+            if ax is None:
+                continue
+            e = inline_at(cfg, rd, n.id, ax, depth=1)
+            # the axes list may be re-bound by a guarded flattening: look at every reaching definition
+            texts = set()
+            if isinstance(ax, ast.Name):
+                for d in (rd.get(n.id) or {}).get(ax.id, ()):
+                    dn = cfg.nodes[d]
+                    if dn.kind == "stmt" and isinstance(dn.ast, ast.Assign):
+                        texts.add(src(inline_at(cfg, rd, d, dn.ast.value, depth=3, stop=(ax.id,))))
+            else:
+                texts.add(src(e))
+            sp_param = fi.params()[2]
+            ok = bool(texts) and any("self._domain.axes[" in t and sp_param in t for t in texts)
+            ctx.check("R06.7", f"{fi.key}::partial reduction runs over self._domain.axes[i] for i in {sp_param}", True if ok else None,
+                      f"axis argument defined as {sorted(texts)}", fi, n.ast)
+
+
+def r06_8(ctx, rid="R06.8"):
+    """index typing in Field.weight: an array-axis-indexed shape vector is never indexed with a sub-domain index"""
+    from ..terms import inline_at
+    m = ctx.model
+    F = m.cls(FLD, "Field")
+    fi = F.methods.get("weight")
+    ctx.rule(rid, "Field.weight: the broadcast shape of a non-scalar volume array has one entry per ARRAY AXIS; it is written at "
+                  "the axes self._domain.axes[i] of the weighted sub-domain i (first to last), never at the sub-domain index "
+                  "itself (index typing: sub-domain index vs array axis)", floor=1)
+    if fi is None:
+        ctx.error(f"{rid}: Field.weight missing")
+        return
+    ctx.saw_func(fi)
+    cfg = cfg_of(fi)
+    rd = cfg.reaching_defs(fi.params())
+    loops = [st for st in ast.walk(fi.node) if isinstance(st, ast.For) and isinstance(st.target, ast.Name)]
+    found = 0
+    for lp in loops:
+        iv = lp.target.id
+        for n in cfg.nodes:
+            if n.kind != "stmt" or not isinstance(n.ast, ast.Assign) or len(n.ast.targets) != 1:
+                continue
+            t = n.ast.targets[0]
+            if not (isinstance(t, ast.Subscript) and isinstance(t.value, ast.Name)) or not any(x is n.ast for x in ast.walk(lp)):
+                continue
+            # the subscripted vector is axis-indexed if it is created with len(self.shape) / self._val.ndim entries
+            arr = t.value.id
+            defs = [cfg.nodes[d] for d in (rd.get(n.id) or {}).get(arr, ())]
+            axis_indexed = defs and all(d.kind == "stmt" and isinstance(d.ast, ast.Assign) and
+                                        any(s_ in src(d.ast.value) for s_ in ("len(self.shape)", "self._val.ndim", "len(self._val.shape)", "len(self._domain.shape)"))
+                                        for d in defs)
+            if not axis_indexed:
+                continue
+            found += 1
+            key = f"{fi.key}::`{arr}[...] = {short(n.ast.value, 30)}` is written at array axes"
+            idx = inline_at(cfg, rd, n.id, t.slice, depth=3, stop=(iv,))
+            it = src(idx)
+            ax = f"self._domain.axes[{iv}]"
+            if isinstance(idx, ast.Slice) and idx.step is None and idx.lower is not None and idx.upper is not None:
+                lo, hi = src(idx.lower), src(idx.upper)
+                good = lo in (f"{ax}[0]", f"min({ax})") and hi in (f"{ax}[-1] + 1", f"1 + {ax}[-1]", f"max({ax}) + 1")
+                if good:
+                    ctx.ok(rid, key, f"[{lo}:{hi}]", fi, n.ast)
+                    continue
+            if ".axes" not in it:
+                ctx.bad(rid, key, f"index `{it}` is not derived from self._domain.axes: a sub-domain index addresses an array axis "
+                                  "(wrong as soon as an earlier sub-domain has more than one axis)", fi, n.ast)
+            else:
+                ctx.und(rid, key, f"index `{it}` not recognised", fi, n.ast)
+    if not found:
+        ctx.und(rid, f"{fi.key}::broadcast shape store", "no store into an axis-indexed shape vector found", fi)
+
+
 _run_c06 = run
 
 
@@ -285,3 +528,6 @@ def run(ctx):  # noqa: F811
     _run_c06(ctx)
     r06_4(ctx)
     r06_5(ctx)
+    r06_6(ctx)
+    r06_7(ctx)
+    r06_8(ctx)
